@@ -669,8 +669,9 @@ def compile_assign(
             node = asty.Assign
             target_kwarg = dict(targets = st_targets)
 
+        pos = target[0] if chained else target
         result += node(
-            target if hasattr(target, "start_line") else result,
+            pos if hasattr(pos, "start_line") else result,
             value=result.force_expr if not annotate_only else None,
             **target_kwarg
         )
